@@ -1581,7 +1581,7 @@ class MimeBox(FullBox):
     def parse(clz, src, parent, options, **kwargs):
         rv = FullBox.parse(src, parent=parent, options=options, **kwargs)
         rv['content_type'] = src.read(rv['size'] - rv['header_size'] - 4)
-        while rv['content_type'][-1] == 0:
+        while rv['content_type'] and rv['content_type'][-1] == 0:
             rv['content_type'] = rv['content_type'][:-1]
         rv['content_type'] = str(rv['content_type'], 'ascii')
         return rv
